@@ -188,11 +188,13 @@ Definition quiet_op (o : op rvalue) : bool :=
   | _ => false
   end.
 
+Definition clearing_op (o : op rvalue) : bool := match o with LClear | LIMul _ | DClear => true | _ => false end.
+
 Ltac fin E := inv E; auto; try (destruct (notify_on _)); auto using fix_chain_conf, notified_conf.
 
 Lemma exec_conf : forall q sc st ps tid tk pa tpth tfl its ro st' out,
   Conforms st -> get_at st ps = Some (Node tid tk pa tpth tfl its) -> kind_ok tk ro = true -> op_free ro -> exec_op ro = true ->
-  (checks_members ev (Node tid tk pa tpth tfl its) = false \/ (quiet_op ro = true /\ node_ok tk tfl [])) ->
+  (checks_members ev (Node tid tk pa tpth tfl its) = false \/ (quiet_op ro = true /\ (clearing_op ro = true -> node_ok tk tfl []))) ->
   exec q sc st ps tid tk tpth tfl its ro = (st', out) -> Conforms st'.
 Proof.
   intros q sc st ps tid tk pa tpth tfl its ro st' out C G K OK XO T E.
@@ -303,4 +305,530 @@ Proof.
     + destruct m; simpl; auto.
     + destruct m; simpl; auto.
 Qed.
+
+(* --- constructing typed values ------------------------------------------------------------------------------------------ *)
+Lemma tconstruct_conf : forall st k sp fl v n st1,
+  good sp = true ->
+  (k = KDict \/ k = KList \/ exists c fs m, k = KObj c /\ sp = Typing.SDict (Some fs) m) ->
+  tconstruct false ev st k sp fl v = inl (n, st1) -> cnode n /\ roots st1 = roots st.
+Proof.
+  intros st k sp fl v n st1 G K T. unfold tconstruct in T.
+  destruct (Typing.apply (f_partial fl) sp v) as [v0|] eqn:A; [|discriminate].
+  remember (prune (Some sp) v0) as v' eqn:EV. clear EV.
+  destruct v'; try (simpl in T; discriminate).
+  - (* a list *)
+    rewrite tlit_plist in T. cbn iota beta in T. cbn [f_spec] in T.
+    match type of T with (if stored_ok _ _ _ ?lit _ then _ else _) = _ => destruct (stored_ok false (f_partial fl) sp lit (Typing.PList l)) eqn:SO; [|discriminate] end.
+    destruct (stored_ok_parts _ _ _ _ SO) as (LP & ND & PR & FX).
+    destruct K as [->|[->|(c & fs & m & -> & _)]]; try (rewrite lit_pv_dict in LP; discriminate).
+    match type of T with (let '(_, _) := ?b in _) = _ => destruct b as [n0 nx] eqn:B end. inv T. split; auto.
+    replace n with (fst (build false None [] (LitNode KList
+        {| f_sealed := f_sealed fl; f_aw := f_aw fl; f_partial := f_partial fl; f_spec := ref_opt ev (bound_opt false (Some sp)) |} false
+        (tlit_list ev (f_partial fl) (elem_opt (bound_opt false (Some sp))) l 0)) (next_id st))) by (rewrite B; auto).
+    apply conf_root_list; auto.
+  - (* a dict / the attribute dict of an object *)
+    rewrite tlit_pdict in T. cbn iota beta in T. cbn [f_spec] in T.
+    match type of T with (if stored_ok _ _ _ ?lit _ then _ else _) = _ => destruct (stored_ok false (f_partial fl) sp lit (Typing.PDict kvs)) eqn:SO; [|discriminate] end.
+    destruct (stored_ok_parts _ _ _ _ SO) as (LP & ND & PR & FX).
+    assert (KD : k = KDict \/ exists c fs m, k = KObj c /\ sp = Typing.SDict (Some fs) m).
+    { destruct K as [->|[->|X]]; auto. rewrite lit_pv_list in LP. discriminate. }
+    assert (LP' : lit_pv (tlit ev (f_partial fl) (Some sp) (Typing.PDict kvs)) = Typing.PDict kvs).
+    { rewrite tlit_pdict. destruct KD as [->|(c & fs & m & -> & _)]; exact LP. }
+    match type of T with (let '(_, _) := ?b in _) = _ => destruct b as [n0 nx] eqn:B end. inv T. split; auto.
+    replace n with (fst (build false None [] (LitNode k
+        {| f_sealed := f_sealed fl; f_aw := f_aw fl; f_partial := f_partial fl; f_spec := ref_opt ev (bound_opt true (Some sp)) |} false
+        (tlit_dict ev (f_partial fl) (bound_opt true (Some sp)) kvs)) (next_id st))) by (rewrite B; auto).
+    apply conf_root_dict; auto.
+Qed.
+
+Lemma troot_conf : forall st k r fl v n st1,
+  good_env ev -> troot false ev st k r fl v = inl (n, st1) -> cnode n /\ roots st1 = roots st.
+Proof.
+  intros st k r fl v n st1 GE T. unfold troot in T.
+  destruct k; destruct (spec_at ev r) as [sp|] eqn:SA; try discriminate.
+  - destruct v; try discriminate. eapply tconstruct_conf; [eapply GE; eauto| |exact T]. auto.
+  - destruct v; try discriminate. eapply tconstruct_conf; [eapply GE; eauto| |exact T]. auto.
+  - destruct sp; try discriminate. destruct schema as [fs|]; try discriminate. destruct v; try discriminate.
+    destruct (negb (N.eqb (class_ref ev cls) r)); [discriminate|].
+    destruct (obj_args_ok fs (f_partial _) kvs); [|discriminate].
+    eapply tconstruct_conf; [eapply GE; eauto| |exact T]. right. right. eauto.
+Qed.
+
+(* --- values after resolution ---------------------------------------------------------------------------------------------- *)
+Lemma lit_no_obj_free : forall l, lit_no_obj l = true -> lit_spec_free l = true.
+Proof.
+  induction l using lit_ind'; simpl; intros F; auto.
+  apply andb_true_iff in F as [F F3]. apply andb_true_iff in F as [F1 F2].
+  rewrite F2, orb_true_r. simpl.
+  induction H as [|[k0 c0] r0 Hc Hr IH]; simpl in *; auto.
+  apply andb_true_iff in F3 as [A B]. rewrite (Hc A). simpl. apply IH. exact B.
+Qed.
+Lemma plain_lit_free : forall v, lit_spec_free (plain_lit v) = true.
+Proof.
+  induction v using TypingBasics.pv_ind'; try reflexivity.
+  - simpl. generalize 0. induction H; intros z; simpl; auto. rewrite H. simpl. apply IHForall.
+  - simpl. induction H as [|[k x] r Hx Hr IH]; simpl; auto. simpl in Hx. rewrite Hx. simpl. exact IH.
+Qed.
+Lemma resolve_t_free : forall st v x, resolve_t st v = Some x -> rv_free (r_rv x).
+Proof.
+  induction v; simpl; intros x R.
+  - destruct l as [lf|k fl pl its]; [inv R; exact I|].
+    destruct (lit_valid (LitNode k fl pl its) && lit_no_obj (LitNode k fl pl its)) eqn:E; inv R.
+    apply andb_true_iff in E as [_ E]. cbn [r_rv rv_free]. apply lit_no_obj_free. exact E.
+  - destruct (get_at st p) as [[l|i k pa pt fl its]|]; inv R; exact I.
+  - destruct (resolve_t st v) as [r|]; [|discriminate]. specialize (IHv _ eq_refl).
+    destruct (r_ins r); inv R; simpl; auto.
+  - destruct (dict_keys_nodup (strip v) && Typing.pv_eqb (lit_pv (plain_lit (strip v))) (strip v)); inv R. simpl.
+    pose proof (plain_lit_free (strip v)) as F. destruct (plain_lit (strip v)); simpl; auto.
+Qed.
+Lemma to_rv_free : forall x, rv_free (r_rv x) -> rv_free (to_rv x).
+Proof. intros x H. unfold to_rv. destruct (r_ins x); simpl; auto. Qed.
+Definition op_tfree (o : op rtv) : Prop := Forall (fun x => rv_free (to_rv x)) (op_values o).
+Lemma mapM_forall : forall A B (f : A -> option B) (Q : B -> Prop) l l',
+  (forall a b, f a = Some b -> Q b) -> mapM f l = Some l' -> Forall Q l'.
+Proof.
+  induction l as [|a r IH]; simpl; intros l' H M; [inv M; constructor|].
+  destruct (f a) eqn:E; [|discriminate]. destruct (mapM f r) eqn:M2; [|discriminate]. inv M. constructor; eauto.
+Qed.
+Lemma mapM_snd_forall : forall K A B (f : A -> option B) (Q : B -> Prop) (l : list (K * A)) l',
+  (forall a b, f a = Some b -> Q b) -> mapM_snd f l = Some l' -> Forall (fun kv => Q (snd kv)) l'.
+Proof.
+  unfold mapM_snd. induction l as [|[k a] r IH]; simpl; intros l' H M; [inv M; constructor|].
+  destruct (f a) eqn:E; [|discriminate].
+  destruct (mapM (fun kv : K * A => match f (snd kv) with Some b => Some (fst kv, b) | None => None end) r) eqn:M2; [|discriminate].
+  inv M. constructor; simpl; eauto.
+Qed.
+Lemma resolve_op_tfree : forall st o ro, op_mapM (resolve_t st) o = Some ro -> op_tfree ro.
+Proof.
+  intros st o ro H.
+  assert (X : forall a b, resolve_t st a = Some b -> rv_free (to_rv b)) by (intros; apply to_rv_free; eapply resolve_t_free; eauto).
+  unfold op_tfree. destruct o; simpl in H;
+    repeat match goal with
+           | H : option_map _ ?x = Some _ |- _ => destruct x eqn:?; simpl in H; [|discriminate]
+           end; inv H; simpl; auto; eauto using mapM_forall.
+  - apply Forall_map. apply (mapM_snd_forall _ _ _ (resolve_t st) (fun b => rv_free (to_rv b)) kvs); auto.
+  - apply Forall_map. apply (mapM_snd_forall _ _ _ (resolve_t st) (fun b => rv_free (to_rv b)) kvs); auto.
+  - apply Forall_map. apply (mapM_snd_forall _ _ _ (resolve_t st) (fun b => rv_free (to_rv b)) pvs); auto.
+Qed.
+
+(* --- the typed loops -------------------------------------------------------------------------------------------------------- *)
+Section Typed.
+Variable q : quirks.
+Hypothesis GE : good_env ev.
+
+Lemma tprim_conf' : forall sc st cp k x st' p,
+  Conforms st -> scope_ok P sc -> rv_free (to_rv x) -> tprim q false ev sc st cp k x = (st', p) -> Conforms st'.
+Proof. intros. eapply tprim_conf; eauto. Qed.
+
+Lemma textend_loop_conf : forall sc xs st ps upd st' u e,
+  Conforms st -> scope_ok P sc -> Forall (fun x => rv_free (to_rv x)) xs ->
+  textend_loop q false ev sc st ps xs upd = (st', u, e) -> Conforms st'.
+Proof.
+  induction xs as [|x r IH]; simpl; intros st ps upd st' u e C S F L; [inv L; auto|]. inv F.
+  destruct (tprim q false ev sc st ps (KI (cur_len st ps)) x) as [st1 p] eqn:T.
+  pose proof (tprim_conf' _ _ _ _ _ _ _ C S H1 T).
+  destruct p; eauto. inv L; auto.
+Qed.
+Lemma textend_core_conf : forall sc xs st ps st' o,
+  Conforms st -> scope_ok P sc -> Forall (fun x => rv_free (to_rv x)) xs ->
+  textend_core q false ev sc st ps xs = (st', o) -> Conforms st'.
+Proof.
+  intros sc xs st ps st' o C S F L. unfold textend_core in L.
+  destruct (textend_loop q false ev sc st ps xs false) as [[st1 u] e] eqn:E.
+  pose proof (textend_loop_conf _ _ _ _ _ _ _ _ C S F E).
+  destruct e; inv L; auto. destruct (u && notify_on sc); auto using fix_chain_conf.
+Qed.
+
+Lemma trebind_one_conf : forall sc st tp path x st' p c,
+  Conforms st -> scope_ok P sc -> rv_free (to_rv x) -> trebind_one q false ev sc st tp path x = (st', p, c) -> Conforms st'.
+Proof.
+  intros sc st tp path x st' p c C S F L. unfold trebind_one in L.
+  destruct path; [inv L; auto|].
+  destruct (get_at st tp); [|inv L; auto].
+  destruct (query_path n (removelast (k :: path))); [|inv L; auto].
+  destruct (get_at st (fst tp, snd tp ++ l)) as [[|cid ck pa pt cfl its]|]; try (inv L; auto; fail).
+  destruct (treats_as_sealed sc cfl); [inv L; auto|].
+  destruct (tprim q false ev sc st (fst tp, snd tp ++ l) (last (k :: path) (KI 0)) x) as [st1 p1] eqn:T.
+  inv L. eapply tprim_conf'; eauto.
+Qed.
+Lemma trebind_loop_conf : forall sc pvs st tp upd st' u e,
+  Conforms st -> scope_ok P sc -> Forall (fun kv => rv_free (to_rv (snd kv))) pvs ->
+  trebind_loop q false ev sc st tp pvs upd = (st', u, e) -> Conforms st'.
+Proof.
+  induction pvs as [|[p x] r IH]; simpl; intros st tp upd st' u e C S F L; [inv L; auto|]. inv F.
+  destruct (trebind_one q false ev sc st tp p x) as [[st1 p1] c] eqn:R.
+  pose proof (trebind_one_conf _ _ _ _ _ _ _ _ C S H1 R).
+  destruct p1; [destruct c | destruct c | inv L; auto]; eauto.
+Qed.
+Lemma trebind_core_conf : forall sc st tp tk pvs nt st' o,
+  Conforms st -> scope_ok P sc -> Forall (fun kv => rv_free (to_rv (snd kv))) pvs ->
+  trebind_core q false ev sc st tp tk pvs nt = (st', o) -> Conforms st'.
+Proof.
+  intros sc st tp tk pvs nt st' o C S F L. unfold trebind_core in L.
+  assert (F' : Forall (fun kv => rv_free (to_rv (snd kv))) (match tk with KList => sort_desc pvs | _ => pvs end)).
+  { destruct tk; auto. apply sort_desc_forall; auto. }
+  destruct (trebind_loop q false ev sc st tp _ []) as [[st1 u] e] eqn:E.
+  pose proof (trebind_loop_conf _ _ _ _ _ _ _ _ C S F' E).
+  destruct e; inv L; auto. destruct nt; auto using fix_chains_conf.
+Qed.
+End Typed.
+
+Lemma conforms_same_roots : forall st st1, roots st1 = roots st -> Conforms st -> Conforms st1.
+Proof. intros st st1 E C. unfold SymCoreTypedConf.Conforms in *. rewrite E. exact C. Qed.
+
+Section Exec.
+Variable q : quirks.
+Hypothesis GE : good_env ev.
+
+Lemma typed_remove_ok : forall tfl e mn mx m its idx,
+  spec_at ev (f_spec tfl) = Some (Typing.SList e mn mx m) -> node_ok KList tfl its -> removable mn its 1 = true ->
+  node_ok KList tfl (remove_nth idx its).
+Proof.
+  intros tfl e mn mx m its idx SA NO RM. unfold SymCoreTypedConf.node_ok in *. rewrite SA in *.
+  destruct NO as (A & B & C). unfold removable in RM. apply negb_true_iff in RM.
+  pose proof (count_present_remove_nth idx its). split; [|split].
+  - apply Forall_remove_nth. auto.
+  - lia.
+  - destruct mx; auto. pose proof (zlen_remove_nth _ idx its). lia.
+Qed.
+
+Lemma rtv_items_free : forall (its : list (key * node)) n,
+  Forall (fun x => rv_free (to_rv x)) (repeat_list n (map (fun kv => rtv_of_item (snd kv)) its)).
+Proof.
+  intros. apply repeat_list_forall. apply Forall_forall. intros x I. apply in_map_iff in I. destruct I as (kv & <- & _).
+  unfold rtv_of_item. destruct (snd kv); simpl; exact I.
+Qed.
+
+Lemma exec_list_conf : forall sc st ps tid pa tpth tfl its e mn mx m o deleg st' out,
+  Conforms st -> get_at st ps = Some (Node tid KList pa tpth tfl its) ->
+  spec_at ev (f_spec tfl) = Some (Typing.SList e mn mx m) -> scope_ok P sc -> op_tfree o -> kind_ok KList o = true ->
+  (forall pvs, o <> Rebind pvs) ->
+  (forall s o', deleg = (s, o') -> quiet_op (op_rv o) = true -> exec_op (op_rv o) = true ->
+     (clearing_op (op_rv o) = true -> node_ok KList tfl []) -> Conforms s) ->
+  exec_list q false ev sc st ps tid tpth tfl its e mn mx (Typing.SList e mn mx m) o deleg = (st', out) -> Conforms st'.
+Proof.
+  intros sc st ps tid pa tpth tfl its e mn mx m o deleg st' out C G SA S OF K NR DG E.
+  destruct (target_children _ _ _ _ _ _ _ _ _ _ C G) as (NO & F).
+  assert (SP : forall cid ck pa0 pt cfl its0, get_at st ps = Some (Node cid ck pa0 pt cfl its0) ->
+               spec_at ev (f_spec cfl) = Some (Typing.SList e mn mx m)).
+  { intros. rewrite G in H. inv H. auto. }
+  assert (EMPTY : mn >? 0 = false -> node_ok KList tfl []).
+  { intros MN. unfold SymCoreTypedConf.node_ok in *. rewrite SA in *. destruct NO as (_ & _ & N3).
+    split; [constructor|]. split; [rewrite count_present_nil; lia|].
+    destruct mx; auto. unfold zlen in *. simpl. pose proof (Zle_0_nat (length its)). lia. }
+  assert (NEW : forall v c st1, troot false ev st KList (f_spec tfl) (mkFlags false true false 0) (Typing.PList v) = inl (c, st1) ->
+                cnode c /\ Conforms st1).
+  { intros v c st1 T. destruct (troot_conf _ _ _ _ _ _ _ GE T) as (Cc & R). split; auto. eapply conforms_same_roots; eauto. }
+  unfold op_tfree in OF.
+  destruct o; simpl in K; try discriminate; unfold exec_list in E; simpl in OF;
+    try (eapply DG; [exact E|reflexivity|reflexivity|simpl; intros; discriminate]; fail);
+    try (destruct (treats_as_sealed sc tfl); [inv E; auto; fail|]).
+  - (* LSet *) inv OF.
+    destruct (negb (writable_via_accessors sc tfl)); [inv E; auto|].
+    destruct ((i <? - zlen its) || (i >=? zlen its)); [inv E; auto|].
+    destruct (tlprim q false ev sc st ps (KI i) v e mn mx) as [st1 p] eqn:L.
+    pose proof (tlprim_conf _ _ _ _ _ _ _ _ _ _ _ _ _ _ C GE S SP L). destruct p; fin E.
+  - (* LDel *)
+    destruct (negb (writable_via_accessors sc tfl)); [inv E; auto|].
+    destruct ((i <? - zlen its) || (i >=? zlen its)); [inv E; auto|].
+    destruct (removable mn its 1) eqn:RM; [|inv E; auto]. simpl in E. inv E.
+    eapply ldel_core_conf; eauto. eapply typed_remove_ok; eauto.
+  - (* LAppend *) inv OF.
+    destruct (full mx (zlen its)); [inv E; auto|].
+    destruct (tlprim q false ev sc st ps (KI (zlen its)) v e mn mx) as [st1 p] eqn:L.
+    pose proof (tlprim_conf _ _ _ _ _ _ _ _ _ _ _ _ _ _ C GE S SP L). destruct p; fin E.
+  - (* LInsert *)
+    destruct (full mx (zlen its)); [inv E; auto|].
+    match type of E with match ?t with _ => _ end = _ => destruct t as [st1 p] eqn:L end.
+    pose proof (tlprim_conf _ _ _ _ _ _ _ _ _ _ _ _ _ _ C GE S SP L). destruct p; fin E.
+  - (* LExtend *)
+    match type of E with (if ?c then _ else _) = _ => destruct c; [inv E; auto|] end.
+    eapply textend_core_conf; eauto.
+  - (* LPop *)
+    destruct ((_ <? - zlen its) || (_ >=? zlen its)); [inv E; auto|].
+    destruct (treats_as_sealed sc tfl); [inv E; auto|].
+    destruct (removable mn its 1) eqn:RM; [|inv E; auto]. simpl in E.
+    match type of E with (let '(_, _) := ?t in _) = _ => destruct t as [st1 r] eqn:L end. inv E.
+    match type of L with ldel_core ?a ?b ?c ?d = _ => replace st' with (fst (ldel_core a b c d)) by (rewrite L; auto) end.
+    eapply ldel_core_conf; eauto. eapply typed_remove_ok; eauto.
+  - (* LRemove *)
+    match type of E with match ?f with _ => _ end = _ => destruct f as [idx|]; [|inv E; auto] end.
+    destruct (mn =? zlen its); [inv E; auto|].
+    destruct (treats_as_sealed sc tfl); [inv E; auto|].
+    destruct (negb (writable_via_accessors sc tfl)); [inv E; auto|].
+    destruct (removable mn its 1) eqn:RM; [|inv E; auto]. simpl in E. inv E.
+    eapply ldel_core_conf; eauto. eapply typed_remove_ok; eauto.
+  - (* LClear *)
+    destruct (mn >? 0) eqn:MN; [inv E; auto|]. eapply DG; [exact E|reflexivity|reflexivity|intros; apply EMPTY; reflexivity].
+  - (* LIAdd *)
+    match type of E with (if ?c then _ else _) = _ => destruct c; [inv E; auto|] end.
+    eapply textend_core_conf; eauto.
+  - (* LIMul *)
+    destruct (n <=? 0) eqn:N0.
+    + destruct (mn >? 0) eqn:MN; [inv E; auto|]. eapply DG; [exact E|reflexivity|simpl; exact N0|intros; apply EMPTY; reflexivity].
+    + match type of E with (if ?c then _ else _) = _ => destruct c; [inv E; auto|] end.
+      eapply textend_core_conf; [exact GE|exact C|exact S|apply rtv_items_free|exact E].
+  - (* LAdd *)
+    match type of E with match ?t with _ => _ end = _ => destruct t as [[c st1]|er] eqn:T; [|inv E; auto] end.
+    destruct (NEW _ _ _ T) as (Cc & C1).
+    destruct (treats_as_sealed sc default_flags); [inv E; auto|].
+    match type of E with (if ?c then _ else _) = _ => destruct c; [inv E; auto|] end.
+    match type of E with match ?t with _ => _ end = _ => destruct t as [s2 o2] eqn:X end.
+    assert (Conforms s2).
+    { eapply textend_core_conf; [exact GE| |exact S|exact OF|exact X]. apply conforms_add_root; auto. }
+    destruct o2; inv E; auto.
+  - (* LMul *)
+    match type of E with (if ?c then _ else _) = _ => destruct c; [inv E; auto|] end.
+    match type of E with match ?t with _ => _ end = _ => destruct t as [[c st1]|er] eqn:T; [|inv E; auto] end.
+    destruct (NEW _ _ _ T) as (Cc & C1). inv E. apply conforms_add_root; auto.
+  - (* LCopy *)
+    match type of E with match ?t with _ => _ end = _ => destruct t as [[c st1]|er] eqn:T; [|inv E; auto] end.
+    destruct (NEW _ _ _ T) as (Cc & C1). inv E. apply conforms_add_root; auto.
+  - exfalso. eapply NR. reflexivity.
+Qed.
+
+Definition rebind_like {V} (o : op V) : bool := match o with Rebind _ | DUpdate _ | DIOr _ => true | _ => false end.
+
+Lemma new_list_from_conf : forall st its c st1,
+  Conforms st -> Forall (fun kc => cnode (snd kc)) its -> new_list_from q st its = (c, st1) -> cnode c /\ Conforms st1.
+Proof.
+  intros st its c st1 C F NL. unfold new_list_from in NL.
+  destruct (clone_at (q_copy_drops_missing q) false None [] (Node 0%N KList None [] default_flags its) (next_id st, [])) as [c0 cs] eqn:CL.
+  inv NL. split; [|apply conforms_with_next; auto].
+  replace c with (fst (clone_at (q_copy_drops_missing q) false None [] (Node 0%N KList None [] default_flags its) (next_id st, []))) by (rewrite CL; auto).
+  apply cnode_clone_at. apply cnode_node. split; [apply node_ok_untyped; reflexivity|auto].
+Qed.
+
+Lemma exec_ulist_conf : forall sc st ps tid pa tpth tfl its o deleg st' out,
+  Conforms st -> get_at st ps = Some (Node tid KList pa tpth tfl its) -> scope_ok P sc -> op_tfree o -> rebind_like o = false ->
+  (forall s o', deleg = (s, o') -> exec_op (op_rv o) = true -> Conforms s) ->
+  exec_ulist q false ev sc st ps tfl its o deleg = (st', out) -> Conforms st'.
+Proof.
+  intros sc st ps tid pa tpth tfl its o deleg st' out C G S OF RL DG E.
+  destruct (target_children _ _ _ _ _ _ _ _ _ _ C G) as (NO & F).
+  unfold op_tfree in OF.
+  destruct o; simpl in RL; try discriminate; unfold exec_ulist in E; simpl in OF;
+    try (eapply DG; [exact E|reflexivity]; fail);
+    try (destruct (treats_as_sealed sc tfl); [inv E; auto; fail|]).
+  - eapply textend_core_conf; eauto.
+  - eapply textend_core_conf; eauto.
+  - destruct (n <=? 0) eqn:N0.
+    + eapply DG; [exact E|]. simpl. exact N0.
+    + eapply textend_core_conf; [exact GE|exact C|exact S|apply rtv_items_free|exact E].
+  - destruct (treats_as_sealed sc default_flags); [inv E; auto|].
+    destruct (new_list_from q st its) as [c st1] eqn:NL.
+    destruct (new_list_from_conf _ _ _ _ C F NL) as (Cc & C1).
+    match type of E with match ?t with _ => _ end = _ => destruct t as [s2 o2] eqn:X end.
+    assert (Conforms s2).
+    { eapply textend_core_conf; [exact GE| |exact S|exact OF|exact X]. apply conforms_add_root; auto. }
+    destruct o2; inv E; auto.
+  - match type of E with (if ?c then _ else _) = _ => destruct c; [inv E; auto|] end.
+    destruct (new_list_from q st []) as [c st1] eqn:NL.
+    destruct (new_list_from_conf _ _ _ _ C (Forall_nil _) NL) as (Cc & C1).
+    match type of E with match ?t with _ => _ end = _ => destruct t as [[s2 u] e2] eqn:X end.
+    assert (Conforms s2).
+    { eapply textend_loop_conf; [exact GE| |exact S|apply rtv_items_free|exact X]. apply conforms_add_root; auto. }
+    destruct e2; inv E; auto.
+Qed.
+
+Lemma acc_mono : forall p p' f v, (p = true -> p' = true) -> acc p f v -> acc p' f v.
+Proof. intros p p' f v H [A|(A & B)]; [left; auto|right; auto]. Qed.
+Lemma child_ok_mono : forall p p' f c, (p = true -> p' = true) -> child_ok ev p f c -> child_ok ev p' f c.
+Proof.
+  intros p p' f c H C. destruct c as [l|i k pa pt fl its]; simpl in *; [eapply acc_mono; eauto|].
+  destruct k; auto. eapply acc_mono; eauto.
+Qed.
+Lemma ordered_items_in : forall n kc, In kc (ordered_items ev n) -> In kc (nitems n).
+Proof.
+  intros n kc I. destruct n as [l|i k pa pt fl its]; simpl in *; auto.
+  assert (X : forall fs, In kc (flat_map (fun kf : Typing.fkey * spec => match fst kf with
+                  | Typing.KConst k0 => match assoc (KS k0) its with Some c => [(KS k0, c)] | None => [] end
+                  | Typing.KDyn => [] end) fs ++ filter (fun kc0 => negb (is_const_key fs (fst kc0))) its) -> In kc its).
+  { intros fs H. apply in_app_or in H. destruct H as [H|H].
+    - apply in_flat_map in H. destruct H as ([fk sp] & _ & H). simpl in H. destruct fk; [|contradiction].
+      destruct (assoc (KS k0) its) eqn:A; [|contradiction]. destruct H as [H|[]]. subst.
+      destruct (assoc_in _ _ _ _ A) as (k' & E & I'). apply key_eqb_eq in E. subst. exact I'.
+    - apply filter_In in H. tauto. }
+  destruct k; auto; destruct (spec_at ev (f_spec fl)) as [sp|]; auto; destruct sp; auto; destruct schema; auto; eapply X; eauto.
+Qed.
+
+Lemma exec_dict_conf : forall sc st ps tid tk pa tpth tfl its fs m o deleg st' out,
+  Conforms st -> get_at st ps = Some (Node tid tk pa tpth tfl its) -> tk <> KList ->
+  spec_at ev (f_spec tfl) = Some (Typing.SDict (Some fs) m) -> scope_ok P sc -> op_tfree o -> kind_ok tk o = true ->
+  rebind_like o = false ->
+  (forall s o', deleg = (s, o') -> quiet_op (op_rv o) = true -> clearing_op (op_rv o) = false -> Conforms s) ->
+  exec_dict q false ev sc st ps tid tk tpth tfl its fs (Typing.SDict (Some fs) m) o deleg = (st', out) -> Conforms st'.
+Proof.
+  intros sc st ps tid tk pa tpth tfl its fs m o deleg st' out C G KL SA S OF K RL DG E.
+  destruct (target_children _ _ _ _ _ _ _ _ _ _ C G) as (NO & F).
+  assert (SP : forall cid ck pa0 pt cfl its0, get_at st ps = Some (Node cid ck pa0 pt cfl its0) ->
+               ck <> KList /\ spec_at ev (f_spec cfl) = Some (Typing.SDict (Some fs) m)).
+  { intros. rewrite G in H. inv H. auto. }
+  assert (MISS : rv_free (to_rv (mkRtv false (RLeaf LMissing) (Some Typing.PMissing)))) by exact I.
+  unfold op_tfree in OF.
+  destruct o; simpl in RL; try discriminate; unfold exec_dict in E; simpl in OF;
+    try (destruct tk; try congruence; simpl in K; discriminate; fail);
+    try (eapply DG; [exact E|reflexivity|reflexivity]; fail).
+  - (* DSet *) inv OF.
+    destruct (treats_as_sealed sc tfl); [inv E; auto|].
+    destruct (negb (writable_via_accessors sc tfl)); [inv E; auto|].
+    destruct (tdprim q false ev sc st ps k v fs) as [st1 p] eqn:L.
+    pose proof (tdprim_conf _ _ _ _ _ _ _ _ _ _ _ _ C GE S SP L). destruct p; fin E.
+  - (* DDel *)
+    destruct (treats_as_sealed sc tfl); [inv E; auto|].
+    destruct (negb (writable_via_accessors sc tfl)); [inv E; auto|].
+    destruct (negb (has_key k its)); [inv E; auto|].
+    match type of E with match ?t with _ => _ end = _ => destruct t as [st1 p] eqn:L end.
+    pose proof (tdprim_conf _ _ _ _ _ _ _ _ _ _ _ _ C GE S SP L). destruct p; fin E.
+  - (* DPop *)
+    destruct (assoc k its); [|destruct d; inv E; auto].
+    destruct (treats_as_sealed sc tfl); [inv E; auto|].
+    match type of E with match ?t with _ => _ end = _ => destruct t as [st1 p] eqn:L end.
+    pose proof (tdprim_conf _ _ _ _ _ _ _ _ _ _ _ _ C GE S SP L). destruct p; fin E.
+  - (* DClear *)
+    destruct (treats_as_sealed sc tfl); [inv E; auto|].
+    set (pa' := accepts_partial sc tfl) in *.
+    destruct (Typing.apply pa' (Typing.SDict (Some fs) m) (Typing.PDict [])) as [v0|] eqn:A; [|inv E; auto].
+    remember (prune (Some (Typing.SDict (Some fs) m)) v0) as v' eqn:EV. clear EV.
+    destruct v' as [ | | b0 | z0 | q0 | s0 | l0 | l0 | kvs | c0 i0]; try (simpl in E; inv E; exact C).
+    rewrite tlit_pdict in E. cbn iota beta in E. simpl bound_opt in E.
+    match type of E with (if negb ?c then _ else _) = _ => destruct c eqn:SO; [|simpl in E; inv E; auto] end.
+    simpl negb in E. cbn iota in E.
+    destruct (stored_ok_parts _ _ _ _ SO) as (LP & ND & PR & FX).
+    assert (LP' : lit_pv (tlit ev pa' (Some (Typing.SDict (Some fs) m)) (Typing.PDict kvs)) = Typing.PDict kvs).
+    { rewrite tlit_pdict. exact LP. }
+    pose proof (GE _ _ SA) as Gs.
+    rewrite build_node in E. cbv zeta in E. cbn [f_partial] in E.
+    destruct (dict_members_conf ev P tk kvs fs m pa' pa' (next_id st) tpth KL Gs FX LP' ND PR) as (M1 & M2 & M3).
+    destruct (build_items build tk pa' (next_id st) tpth (tlit_dict ev pa' (Some (Typing.SDict (Some fs) m)) kvs) 0 (N.succ (next_id st))) as [its0 nx'] eqn:BI.
+    cbn [fst] in M1, M2, M3. unfold ctor_seal in E. cbn [f_sealed nitems] in E.
+    assert (C1 : Conforms (update_at (with_next st nx') ps
+                   (set_items (map (fun kc : key * node => (fst kc, set_par (Some tid) (snd kc))) its0)))).
+    { eapply (conforms_replace_items ev P st (with_next st nx') ps tid tk pa tpth tfl its); [ |exact G|right; reflexivity| | ].
+      - apply conforms_with_next; auto.
+      - eapply node_ok_faces.
+        + apply (faces_map (fun kc => set_par (Some tid) (snd kc))). intros kv. apply face_set_par.
+        + symmetry. apply (count_present_map (fun kc => set_par (Some tid) (snd kc))). intros kv. destruct (snd kv); auto.
+        + unfold SymCoreTypedConf.node_ok. rewrite SA.
+          assert (B : Forall (fun kc => exists f, dict_field fs (fst kc) = Some f /\ child_ok ev (part P tfl) f (snd kc)) its0 /\
+                      (forall s0, Typing.has_const s0 fs = true -> has_key (KS s0) its0 = true)).
+          { split; auto. eapply Forall_impl; [|exact M2]. intros kc (f & DF & CO). exists f. split; auto.
+            eapply child_ok_mono; [|exact CO]. intros PT. unfold pa' in PT. apply orb_true_iff in PT. destruct PT as [PT|PT].
+            - eapply accepts_partial_cases; eauto.
+            - unfold part. rewrite PT. apply orb_true_r. }
+          destruct tk; try congruence; exact B.
+      - apply Forall_map. simpl. eapply Forall_impl; [|exact M1]. intros kc Cc. apply cnode_set_par. auto. }
+    assert (C2 : Conforms (detach_all (update_at (with_next st nx') ps
+                   (set_items (map (fun kc : key * node => (fst kc, set_par (Some tid) (snd kc))) its0)))
+                   (ordered_items ev (Node tid tk None tpth tfl its)))).
+    { apply detach_all_conf; auto. apply Forall_forall. intros kc I0. apply ordered_items_in in I0. simpl in I0.
+      rewrite Forall_forall in F. auto. }
+    inv E. destruct (notify_on sc); auto using fix_chain_conf.
+  - (* DSetDefault *) inv OF.
+    assert (X : forall st1 p, tdprim q false ev sc st ps k v fs = (st1, p) -> Conforms st1) by (intros; eapply tdprim_conf; eauto).
+    destruct (assoc k its) as [old|].
+    + destruct (is_missing old); [|inv E; auto].
+      destruct (treats_as_sealed sc tfl); [inv E; auto|].
+      destruct (negb (writable_via_accessors sc tfl)); [inv E; auto|].
+      destruct (tdprim q false ev sc st ps k v fs) as [st1 p] eqn:L. specialize (X _ _ eq_refl).
+      destruct p; fin E.
+    + destruct (treats_as_sealed sc tfl); [inv E; auto|].
+      destruct (negb (writable_via_accessors sc tfl)); [inv E; auto|].
+      destruct (tdprim q false ev sc st ps k v fs) as [st1 p] eqn:L. specialize (X _ _ eq_refl).
+      destruct p; fin E.
+  - (* OSet *) inv OF. destruct tk; try (inv E; auto; fail).
+    destruct (negb (existsb (key_eqb k) (class_fields cls))); [inv E; auto|].
+    destruct (treats_as_sealed sc tfl); [inv E; auto|].
+    destruct (negb (writable_via_accessors sc tfl)); [inv E; auto|].
+    destruct (tdprim q false ev sc st ps k v fs) as [st1 p] eqn:L.
+    pose proof (tdprim_conf _ _ _ _ _ _ _ _ _ _ _ _ C GE S SP L). destruct p; fin E.
+Qed.
+
+Lemma kind_ok_rv : forall k o, kind_ok k (op_rv o) = kind_ok k o.
+Proof. destruct o; unfold op_rv; simpl; auto; rewrite ?mapM_Some_map, ?mapM_snd_Some_map; simpl; auto. Qed.
+Lemma Forall_map_snd : forall K A B (Q : B -> Prop) (g : A -> B) (kvs : list (K * A)),
+  Forall (fun x => Q (g x)) (map snd kvs) -> Forall (fun kv => Q (snd kv)) (map (fun kv => (fst kv, g (snd kv))) kvs).
+Proof. induction kvs as [|[k a] r IH]; simpl; intros H; auto. inv H. constructor; auto. Qed.
+Lemma Forall_map_plain : forall A B (Q : B -> Prop) (g : A -> B) (l : list A),
+  Forall (fun x => Q (g x)) l -> Forall Q (map g l).
+Proof. induction l; simpl; intros H; auto. inv H. constructor; auto. Qed.
+Lemma Forall_of_map_snd : forall K A (Q : A -> Prop) (kvs : list (K * A)),
+  Forall Q (map snd kvs) -> Forall (fun kv => Q (snd kv)) kvs.
+Proof. induction kvs as [|[k a] r IH]; simpl; intros H; auto. inv H. constructor; auto. Qed.
+Lemma Forall_update_paths : forall (Q : rtv -> Prop) (kvs : list (key * rtv)),
+  Forall Q (map snd kvs) -> Forall (fun kv : list key * rtv => Q (snd kv)) (map (fun kv => ([fst kv], snd kv)) kvs).
+Proof. induction kvs as [|[k a] r IH]; simpl; intros H; auto. inv H. constructor; auto. Qed.
+Lemma op_tfree_free : forall o, op_tfree o -> op_free (op_rv o).
+Proof.
+  unfold op_tfree. destruct o; unfold op_rv; simpl; intros H; auto;
+    rewrite ?mapM_Some_map, ?mapM_snd_Some_map; simpl; auto;
+    try (inv H; assumption); try (apply Forall_map_plain; exact H); try (apply Forall_map_snd; exact H).
+Qed.
+Lemma exec_op_nonlist : forall tk o, tk <> KList -> kind_ok tk o = true -> rebind_like o = false -> exec_op (op_rv o) = true.
+Proof.
+  intros tk o KL K RL. destruct o; simpl in RL; try discriminate; unfold op_rv; simpl;
+    rewrite ?mapM_Some_map, ?mapM_snd_Some_map; simpl; auto; destruct tk; simpl in K; congruence.
+Qed.
+
+Lemma exec2_conf : forall sc st ps tid tk pa tpth tfl its o st' out,
+  Conforms st -> get_at st ps = Some (Node tid tk pa tpth tfl its) -> kind_ok tk o = true -> scope_ok P sc -> op_tfree o ->
+  exec2 q false ev sc st ps tid tk tpth tfl its o = (st', out) -> Conforms st'.
+Proof.
+  intros sc st ps tid tk pa tpth tfl its o st' out C G K S OF E.
+  destruct (target_children _ _ _ _ _ _ _ _ _ _ C G) as (NO & F).
+  pose proof (op_tfree_free _ OF) as OFR.
+  assert (DGU : checks_members ev (Node tid tk pa tpth tfl its) = false -> exec_op (op_rv o) = true ->
+                forall s o', exec q sc st ps tid tk tpth tfl its (op_rv o) = (s, o') -> Conforms s).
+  { intros CM XO s o' X. eapply exec_conf; eauto. rewrite kind_ok_rv. auto. }
+  assert (DGQ : quiet_op (op_rv o) = true -> (clearing_op (op_rv o) = true -> node_ok tk tfl []) -> exec_op (op_rv o) = true ->
+                forall s o', exec q sc st ps tid tk tpth tfl its (op_rv o) = (s, o') -> Conforms s).
+  { intros Q CL XO s o' X. eapply exec_conf; eauto. rewrite kind_ok_rv. auto. }
+  assert (QX : quiet_op (op_rv o) = true -> (forall n, o <> LIMul n) -> exec_op (op_rv o) = true).
+  { clear. intros Q N. destruct o; unfold op_rv in *; simpl in *; rewrite ?mapM_Some_map, ?mapM_snd_Some_map in *; simpl in *; try discriminate; auto.
+    exfalso. eapply N; eauto. }
+  unfold exec2 in E. unfold op_tfree in OF.
+  destruct (rebind_like o) eqn:RL.
+  - destruct o; simpl in RL; try discriminate; simpl in OF.
+    + (* DUpdate *) destruct tk; simpl in K; try discriminate.
+      eapply trebind_core_conf; [exact GE|exact C|exact S| |exact E]. apply (Forall_update_paths (fun x => rv_free (to_rv x))). exact OF.
+    + destruct tk; simpl in K; try discriminate.
+      eapply trebind_core_conf; [exact GE|exact C|exact S| |exact E]. apply (Forall_update_paths (fun x => rv_free (to_rv x))). exact OF.
+    + destruct pvs as [|pv pvs']; [inv E; auto|].
+      match type of E with (if ?c then _ else _) = _ => destruct c; [inv E; auto|] end.
+      eapply trebind_core_conf; [exact GE|exact C|exact S| |exact E]. apply (Forall_of_map_snd _ _ (fun x => rv_free (to_rv x))). exact OF.
+  - assert (E' : match tk, spec_at ev (f_spec tfl) with
+                 | KList, Some (Typing.SList e mn mx m) => exec_list q false ev sc st ps tid tpth tfl its e mn mx (Typing.SList e mn mx m) o (exec q sc st ps tid tk tpth tfl its (op_rv o))
+                 | KList, _ => exec_ulist q false ev sc st ps tfl its o (exec q sc st ps tid tk tpth tfl its (op_rv o))
+                 | KDict, Some (Typing.SDict (Some fs) m) => exec_dict q false ev sc st ps tid tk tpth tfl its fs (Typing.SDict (Some fs) m) o (exec q sc st ps tid tk tpth tfl its (op_rv o))
+                 | KObj _, Some (Typing.SDict (Some fs) m) => exec_dict q false ev sc st ps tid tk tpth tfl its fs (Typing.SDict (Some fs) m) o (exec q sc st ps tid tk tpth tfl its (op_rv o))
+                 | KDict, Some (Typing.SDict None _) => match o with DPopItem => (st, Err EValue) | _ => exec q sc st ps tid tk tpth tfl its (op_rv o) end
+                 | _, _ => exec q sc st ps tid tk tpth tfl its (op_rv o)
+                 end = (st', out)).
+    { destruct o; simpl in RL; try discriminate; exact E. }
+    clear E. unfold checks_members, node_spec in DGU.
+    destruct tk.
+    + (* a dict *)
+      destruct (spec_at ev (f_spec tfl)) as [sp|] eqn:SA.
+      * destruct sp; try (eapply DGU; eauto; eapply exec_op_nonlist; eauto; congruence).
+        destruct schema as [fs|].
+        -- eapply exec_dict_conf; eauto; [congruence|].
+           intros s o' X Q CL. eapply DGQ; eauto; [intros; congruence|].
+           apply QX; auto. intros n0 ->. unfold op_rv in CL. simpl in CL. discriminate.
+        -- destruct o; try (eapply DGU; eauto; eapply exec_op_nonlist; eauto; congruence). inv E'. auto.
+      * eapply DGU; eauto. eapply exec_op_nonlist; eauto. congruence.
+    + (* a list *)
+      destruct (spec_at ev (f_spec tfl)) as [sp|] eqn:SA.
+      * destruct sp; try (eapply exec_ulist_conf; eauto; fail).
+        eapply exec_list_conf; eauto. intros pvs ->. simpl in RL. discriminate.
+      * eapply exec_ulist_conf; eauto.
+    + (* an object *)
+      destruct (spec_at ev (f_spec tfl)) as [sp|] eqn:SA.
+      * destruct sp; try (eapply DGU; eauto; eapply exec_op_nonlist; eauto; congruence).
+        destruct schema as [fs|]; [|eapply DGU; eauto; eapply exec_op_nonlist; eauto; congruence].
+        eapply exec_dict_conf; eauto; [congruence|].
+        intros s o' X Q CL. eapply DGQ; eauto; [intros; congruence|].
+        apply QX; auto. intros n0 ->. unfold op_rv in CL. simpl in CL. discriminate.
+      * eapply DGU; eauto. eapply exec_op_nonlist; eauto. congruence.
+Qed.
+End Exec.
 End Ops.
